@@ -44,11 +44,11 @@ def remove_scratch(d):
         _live.remove(d)
 
 
-def append_child_module(repo_dir, rel_file, mod_name, mod_text, cfg="kani"):
+def append_child_module(repo_dir, rel_file, mod_name, mod_text, cfg="kani", pub=False):
     """Append `#[cfg(kani)] mod <name> { ... }` to a real source file (child module => sees privates)."""
     path = os.path.join(repo_dir, rel_file)
     with open(path, "a") as f:
-        f.write("\n\n#[cfg(%s)]\nmod %s {\n" % (cfg, mod_name))
+        f.write("\n\n#[cfg(%s)]\n%smod %s {\n" % (cfg, "pub(crate) " if pub else "", mod_name))
         f.write(mod_text)
         f.write("\n}\n")
 
